@@ -133,8 +133,11 @@ Definition bstep (n : bnode) (l : blabel) : option (bnode * bobs) :=
 Definition answered_by (qname : text) (qtype qclass : Z) (r : pyrec) : bool :=
   (qclass =? DNSEntry_class_ r) && ((qtype =? p_type_ r) || (qtype =? C_TYPE_ANY)) && text_eqb qname (p_name r).
 
+(* (since the repair 8ab9054 async_add_listener first reaps the expired records, the way the periodic cleanup does, while the new listener
+   is not registered yet: nothing is reported to it; [Raise] cannot happen on a cache satisfying the index invariant) *)
 Definition blisten (n0 : bnode) (now : Z) : bnode * bobs :=
-  let n := {| bn_cache := bn_cache n0; bn_sched := bn_sched n0; bn_types := bn_types n0; bn_on := true |} in
+  let c0 := match pg_final (purge now (bn_cache n0)) with Ok c' => c' | Raise _ => bn_cache n0 end in
+  let n := {| bn_cache := c0; bn_sched := bn_sched n0; bn_types := bn_types n0; bn_on := true |} in
   let recs := flat_map (fun t => filter (fun r => negb (DNSRecord_is_expired r now) && answered_by t C_TYPE_PTR C_CLASS_IN r)
                                         (entries_with_name (bn_cache n) t)) (bn_types n) in
   match recs with
